@@ -3,6 +3,7 @@ package world
 import (
 	"fmt"
 	"math/rand"
+	"sort"
 	"time"
 
 	"verif/harness/enc"
@@ -83,8 +84,9 @@ func (g *Gen) Fact() map[string]interface{} {
 	}
 	if g.P.Cascade && g.R.Intn(3) == 0 {
 		dw := []interface{}{}
-		for i, k := 0, 1+g.R.Intn(2); i < k; i++ {
-			dw = append(dw, g.pick(g.P.Ids))
+		perm := g.R.Perm(len(g.P.Ids))
+		for i, k := 0, 1+g.R.Intn(2); i < k && i < len(perm); i++ {
+			dw = append(dw, g.P.Ids[perm[i]]) // distinct elements: arrays are sets
 		}
 		m["deleteWith"] = dw
 	}
@@ -111,10 +113,21 @@ func (g *Gen) addExpiry(m map[string]interface{}) {
 	}
 }
 
+// sortedKeys: generation must not depend on Go's map iteration order (same seed, same history).
+func sortedKeys(m map[string]interface{}) []string {
+	ks := make([]string, 0, len(m))
+	for k := range m {
+		ks = append(ks, k)
+	}
+	sort.Strings(ks)
+	return ks
+}
+
 // patternOf derives a pattern from a data map: drop keys, replace values by variables.
 func (g *Gen) patternOf(d map[string]interface{}, vars []string) map[string]interface{} {
 	p := map[string]interface{}{}
-	for k, v := range d {
+	for _, k := range sortedKeys(d) {
+		v := d[k]
 		if k == "ttl" || k == "expires" {
 			continue
 		}
@@ -342,8 +355,8 @@ func (g *Gen) instantiate(p interface{}, bound map[string]interface{}) interface
 		return v
 	case map[string]interface{}:
 		m := map[string]interface{}{}
-		for k, e := range v {
-			m[k] = g.instantiate(e, bound)
+		for _, k := range sortedKeys(v) {
+			m[k] = g.instantiate(v[k], bound)
 		}
 		if g.R.Intn(3) == 0 {
 			m[[]string{"n", "p", "q"}[g.R.Intn(3)]] = ixScalars[g.R.Intn(len(ixScalars))]
@@ -482,7 +495,7 @@ func (g *Gen) weighted() string {
 	panic("weights")
 }
 
-var opOrder = []string{"AddFact", "RemFact", "GetFact", "SearchFacts", "AddRule", "RemRule", "GetRule",
+var opOrder = []string{"CreateLocation", "AddFact", "RemFact", "GetFact", "SearchFacts", "AddRule", "RemRule", "GetRule",
 	"EnableRule", "SetParents", "GetParents", "Clear", "StateSize", "ListRules", "SearchRules",
 	"ProcessEvent", "SetReadOnly", "Reload", "Sleep", "SetKey"}
 
